@@ -28,7 +28,7 @@ type c16Event struct {
 func (e c16Event) String() string {
 	switch e.Op {
 	case "set":
-		return fmt.Sprintf("set(k%d,%c)", e.K, "-ABCD"[e.Cl])
+		return fmt.Sprintf("set(k%d,%s)", e.K, c16ClassName(e.Cl))
 	case "rm":
 		return fmt.Sprintf("rm(k%d)", e.K)
 	}
@@ -36,9 +36,28 @@ func (e c16Event) String() string {
 }
 
 type c16Case struct {
-	Flavour string     `json:"flavour"` // bare | persist | build
+	Flavour string     `json:"flavour"` // bare | persist | build | wide (= bare entry point, 2 shallow keys, value alphabet W)
 	NKeys   int        `json:"nkeys"`
 	Hist    []c16Event `json:"hist"`
+}
+
+// Value classes. 1..4 = the standard alphabet (A,B,C,D). 11..20 = the "wide" alphabet W of values that collide
+// under plausible fingerprint shortcuts (zero padding, prefixes, length only):
+//   11 v = 3 bytes      12 v‖00        13 v‖00 00      14 empty        15 31x00      16 32x00
+//   17 w = 32 bytes     18 w‖00 (33 bytes, hashed leaf)
+//   19 / 20 two 12-byte values with equal first 8 bytes
+func c16ClassName(cl int) string {
+	if cl >= 1 && cl <= 4 {
+		return string("-ABCD"[cl])
+	}
+	return map[int]string{11: "v", 12: "v0", 13: "v00", 14: "empty", 15: "0x31", 16: "0x32", 17: "w", 18: "w0", 19: "p1", 20: "p2"}[cl]
+}
+
+func c16Classes(flavour string) []int {
+	if flavour == "wide" {
+		return []int{11, 12, 13, 14, 15, 16, 17, 18, 19, 20}
+	}
+	return []int{1, 2, 3, 4}
 }
 
 // keys: k0/k1 differ only in the last bit (deep pair), k2 leaves at bit 9,
@@ -72,6 +91,28 @@ func c16Value(k, cl int) []byte {
 		return mk(32, 0x21)
 	case 4:
 		return mk(33, 0x21) // first 32 octets equal class C's
+	case 11:
+		return mk(3, 0x01)
+	case 12:
+		return append(mk(3, 0x01), 0)
+	case 13:
+		return append(mk(3, 0x01), 0, 0)
+	case 14:
+		return []byte{}
+	case 15:
+		return make([]byte, 31)
+	case 16:
+		return make([]byte, 32)
+	case 17:
+		return mk(32, 0x42)
+	case 18:
+		return append(mk(32, 0x42), 0)
+	case 19:
+		return mk(12, 0x70)
+	case 20:
+		v := mk(12, 0x70)
+		v[8], v[11] = v[8]^0x55, v[11]^0x01
+		return v
 	}
 	return nil
 }
@@ -134,7 +175,7 @@ func c16MaxCache(flavour string) int {
 		fmt.Sscanf(v, "%d", &n)
 		return n
 	}
-	if flavour == "bare" {
+	if flavour == "bare" || flavour == "wide" {
 		return 2
 	}
 	return 17
@@ -145,7 +186,11 @@ func c16New(flavour string, nkeys int) *c16World {
 	types.MaxKeyLevelCacheSize = c16MaxCache(flavour)
 	ResetInstance()
 	w := &c16World{flavour: flavour, nkeys: nkeys, keys: c16Keys()[:nkeys], cs: GetInstance(), entries: make([]int, nkeys)}
-	if flavour != "bare" {
+	if flavour == "wide" {
+		all := c16Keys()
+		w.keys = []types.StateKey{all[0], all[2], all[3]}[:nkeys] // shallow: the trie shape is irrelevant to the cache
+	}
+	if flavour != "bare" && flavour != "wide" {
 		b, err := m.StateEncoder(types.State{})
 		if err != nil {
 			panic("c16: StateEncoder(zero state): " + err.Error())
@@ -168,7 +213,7 @@ type c16RootResult struct {
 func (w *c16World) root(check bool) (res c16RootResult) {
 	mine := c16Sorted(w.mine())
 	full := mine
-	if w.flavour != "bare" {
+	if w.flavour != "bare" && w.flavour != "wide" {
 		full = c16Sorted(append(append(types.StateKeyVals{}, w.base...), mine...))
 	}
 	before := w.cs.keyLevelCache.Len()
@@ -184,7 +229,7 @@ func (w *c16World) root(check bool) (res c16RootResult) {
 	}
 	w.nroot++
 	switch w.flavour {
-	case "bare":
+	case "bare", "wide":
 		res.cached = w.cs.ComputeStateRootWithCache(mine)
 	case "persist":
 		var hh types.HeaderHash
@@ -260,7 +305,7 @@ func (w *c16World) apply(r *vlib.Run, e c16Event, check bool, c *c16Case) {
 		r.Eval()
 		r.Space(1)
 		key := fmt.Sprintf("flavour=%s;hits>0=%v;misses>0=%v;evicted=%v", w.flavour, res.hits > 0, res.misses > 0, res.evicted)
-		site0 := map[string]string{"bare": "blockchain.ChainState.ComputeStateRootWithCache", "persist": "blockchain.ChainState.PersistStateForBlock", "build": "blockchain.ChainState.BuildStateRootInputKeyValsAndRoot"}[w.flavour]
+		site0 := map[string]string{"bare": "blockchain.ChainState.ComputeStateRootWithCache", "wide": "blockchain.ChainState.ComputeStateRootWithCache", "persist": "blockchain.ChainState.PersistStateForBlock", "build": "blockchain.ChainState.BuildStateRootInputKeyValsAndRoot"}[w.flavour]
 		if panicked {
 			r.Violation("blockchain."+site, "go-panic", "flavour="+w.flavour, fmt.Sprintf("history %v: %s", c.Hist, msg), c)
 			return
@@ -282,7 +327,7 @@ func (w *c16World) apply(r *vlib.Run, e c16Event, check bool, c *c16Case) {
 		if [32]byte(res.uncached) != res.want {
 			r.Violation("merklization.MerklizationSerializedState", "root-mismatch", "flavour="+w.flavour, fmt.Sprintf("history %v: from-scratch root %x, R-trie %x", c.Hist, res.uncached[:], res.want[:]), c)
 		}
-		if w.flavour != "bare" {
+		if w.flavour != "bare" && w.flavour != "wide" {
 			// the merkle input must be exactly base ∪ mine
 			exp := c16Sorted(append(append(types.StateKeyVals{}, w.base...), w.mine()...))
 			same := len(exp) == len(res.full)
@@ -304,10 +349,10 @@ func c16Rebuild(r *vlib.Run, c *c16Case, checkFrom int) *c16World {
 	return w
 }
 
-func c16Alphabet(nkeys int) []c16Event {
+func c16Alphabet(flavour string, nkeys int) []c16Event {
 	var evs []c16Event
 	for k := 0; k < nkeys; k++ {
-		for cl := 1; cl <= 4; cl++ {
+		for _, cl := range c16Classes(flavour) {
 			evs = append(evs, c16Event{Op: "set", K: k, Cl: cl})
 		}
 		evs = append(evs, c16Event{Op: "rm", K: k})
@@ -316,7 +361,7 @@ func c16Alphabet(nkeys int) []c16Event {
 }
 
 func c16BFS(r *vlib.Run, flavour string, nkeys int, idx *uint64) (states int, depth int) {
-	alphabet := c16Alphabet(nkeys)
+	alphabet := c16Alphabet(flavour, nkeys)
 	seen := map[string]bool{}
 	w0 := c16New(flavour, nkeys)
 	seen[w0.canon()] = true
@@ -380,7 +425,7 @@ func TestVerif_C16(t *testing.T) {
 		flavour string
 		nkeys   int
 	}
-	cfgs := []cfg{{"bare", 3}}
+	cfgs := []cfg{{"bare", 3}, {"wide", 2}}
 	if r.Thorough() {
 		cfgs = append(cfgs, cfg{"bare", 4}, cfg{"persist", 2}, cfg{"build", 2})
 	}
